@@ -383,8 +383,13 @@ async fn run_case(case: &Value, idx: u64, scratch: &std::path::Path, rep: &Mutex
                 "contract",
                 sig(&op, path, dev, what),
                 format!(
-                    "step {i} {} (offset {}, buffers {:?}) on driver path {}: compio-fs gives {} but the OS's own call gives {}",
-                    op.o, op.off, op.bufs, path, co.to_json(), oo.to_json()
+                    "step {i} {} (offset {}, buffers {:?}) on driver path {}: compio-fs gives {} but the OS's own call gives {}{}",
+                    op.o, op.off, op.bufs, path, co.to_json(), oo.to_json(),
+                    if op.o == "open" {
+                        format!(" (n = permission bits st_mode & 0o7777 of the opened inode; options {:?})", op.opt)
+                    } else {
+                        String::new()
+                    }
                 ),
                 case,
                 i,
